@@ -14,9 +14,10 @@ import (
 )
 
 type Form struct {
-	Values []string `json:"values"`
-	File   string   `json:"file"`
-	JSON   string   `json:"json"`
+	Values   []string `json:"values"`
+	File     string   `json:"file"`
+	JSON     string   `json:"json"`
+	JSONKind string   `json:"jsonkind"` // "" | struct | string
 }
 
 type Reg struct {
@@ -147,6 +148,8 @@ func pathExpr(p []string) string {
 			parts[i] = "pkgConst"
 		case "imported":
 			parts[i] = "inner.Url"
+		case "shadow":
+			parts[i] = "shadowed"
 		default:
 			parts[i] = fmt.Sprintf("%q", strings.TrimPrefix(a, "lit:"))
 		}
@@ -191,7 +194,9 @@ func body(r Reg) string {
 		used = append(used, "ff")
 		fmt.Fprintf(&b, "\tff, _ := c.FormFile(%q)\n", r.Form.File)
 	}
-	if r.Form.JSON != "" {
+	if r.Form.JSON != "" && r.Form.JSONKind == "string" {
+		fmt.Fprintf(&b, "\tvar label string\n\t_ = FormValueJSON(c, %q, &label)\n", r.Form.JSON)
+	} else if r.Form.JSON != "" {
 		fmt.Fprintf(&b, "\tvar extra Extra\n\t_ = FormValueJSON(c, %q, &extra)\n", r.Form.JSON)
 	}
 	if len(used) > 0 {
@@ -258,6 +263,8 @@ import (
 
 const pkgConst = "/pkg_const/"
 
+const shadowed = "/shadow_pkg" // hidden by a local constant inside routes()
+
 type IdDossier int64
 
 type Payload struct {
@@ -287,7 +294,8 @@ func FormValueJSON(echo.Context, string, any) error           { return nil }
 
 %sfunc routes(e *echo.Echo, ct controller, ctp *controller, ct2 inner.Controller) {
 	const localConst = "/local_const"
-	_ = localConst
+	const shadowed = "/shadow_local"
+	_, _ = localConst, shadowed
 %s}
 `, dir, decls.String(), calls.String())
 	return map[string]string{dir + "/routes.go": src}, dir + "/routes.go"
